@@ -852,3 +852,84 @@ def block_bits(plain, level=9, rng=None, **kw):
 
 def num_bits(n, v):
     return [(v >> i) & 1 for i in range(n - 1, -1, -1)]
+
+
+# ---------------------------------------------------------------- raw blocks
+def make_raw_block(w, used, lens_list, selectors, syms, extra_selectors=0):
+    """Append a block given directly as a symbol stream (bzip2 numbering,
+    WITHOUT the EOB, which is appended).  The last column is whatever the
+    symbols decode to; origPtr is chosen so that un-RLE1 succeeds; the CRC is
+    that of the resulting plaintext.  Returns info with 'plain'."""
+    alpha = len(used) + 2
+    eob = alpha - 1
+    last = un_mtf_rle2(used, list(syms) + [eob], 900000)
+    n = len(last)
+    plain = None
+    for op in range(n):
+        try:
+            plain = unrle1(ibwt(last, op))
+            break
+        except Reject:
+            continue
+    if plain is None:
+        raise ValueError('no usable origptr')
+    crc = bzcrc(plain)
+    start = len(w.bits)
+    w.put(48, BLOCK_MAGIC, 'block_magic')
+    w.put(32, crc, 'block_crc')
+    w.put(1, 0)
+    w.put(24, op)
+    big = 0
+    small = [0] * 16
+    for c in used:
+        big |= 1 << (15 - (c >> 4))
+        small[c >> 4] |= 1 << (15 - (c & 15))
+    w.put(16, big)
+    for i in range(16):
+        if big & (1 << (15 - i)):
+            w.put(16, small[i])
+    allsyms = list(syms) + [eob]
+    ng = (len(allsyms) + 49) // 50
+    sel = list(selectors)[:ng] + [0] * max(0, ng - len(selectors))
+    sel += [0] * extra_selectors
+    w.put(3, len(lens_list))
+    w.put(15, len(sel))
+    order = list(range(6))
+    for s in sel:
+        p = order.index(s)
+        order.pop(p)
+        order.insert(0, s)
+        w.raw('1' * p + '0')
+    for ls in lens_list:
+        st, bits = delta_bits(ls)
+        w.put(5, st)
+        w.raw(bits)
+    codes = [canon_codes(ls) for ls in lens_list]
+    data_at = len(w.bits)
+    for g in range(ng):
+        t = sel[g]
+        for s in allsyms[g * 50:(g + 1) * 50]:
+            w.put(lens_list[t][s], codes[t][s])
+    return {'start': start, 'end': len(w.bits), 'crc': crc, 'plain': plain,
+            'nblock': n, 'data_at': data_at, 'groups': ng}
+
+
+def worst_case_block(w, ngroups=60, extra_selectors=0, nused=19):
+    """Every symbol of every group costs 20 bits (1000 bits per group, the
+    maximum the format allows): a 'comb' code 1,2,...,19,20,20 in which the
+    two 20-bit code words belong to the deepest MTF position and EOB, and a
+    last column that always touches the least recently used byte."""
+    used = list(range(0x30, 0x30 + nused))
+    alpha = nused + 2
+    lens = [0] * alpha
+    # symbols 0..alpha-3 get 1..alpha-2, symbols alpha-2 (deepest MTF) and
+    # alpha-1 (EOB) get alpha-1 == 20 for nused == 19
+    for s in range(alpha - 2):
+        lens[s] = s + 1
+    lens[alpha - 2] = alpha - 1
+    lens[alpha - 1] = alpha - 1
+    assert complete(lens), lens
+    deepest = alpha - 2          # MTF position nused-1
+    syms = [deepest] * (ngroups * 50 - 1)
+    return make_raw_block(w, used, [lens, lens], [0] * ngroups, syms,
+                          extra_selectors=extra_selectors)
